@@ -263,7 +263,7 @@ def T2(n=2):
 def T2c(n=2, same_names=False):
     """two usage patterns in different countries (each with its own device) sharing one journey and one network;
     same_names: the two countries are distinct objects carrying the same name and short name (Countries.FRANCE() called
-    twice, one copy given another electricity mix), like the two devices and the two usage patterns"""
+    twice, one copy given another electricity mix), like the two devices"""
     s = T2(n)
     s["countries"]["de"] = {"tz": "Europe/Berlin"}
     s["devices"]["dev2"] = {}
@@ -273,7 +273,7 @@ def T2c(n=2, same_names=False):
         s["countries"]["fr"].update(name="France", short="FRA")
         s["countries"]["de"].update(name="France", short="FRA")
         s["devices"]["dev"]["name"] = s["devices"]["dev2"]["name"] = "laptop"
-        s["patterns"]["up"]["name"] = s["patterns"]["up2"]["name"] = "usage in France"
+        # (usage patterns keep distinct names: the comparison helpers key per-pattern dictionary entries by pattern name)
     return s
 
 
@@ -340,7 +340,8 @@ def TX(n=2, shared=False, same_names=False):
     if same_names:
         # names are not identifiers: every object of a class carries the same display name (archetypes instantiated
         # several times and not renamed), countries also the same short name
-        for coll in ("storages", "servers", "networks", "devices", "countries", "jobs", "steps", "journeys", "patterns"):
+        # (usage patterns keep distinct names: the comparison helpers key per-pattern dictionary entries by pattern name)
+        for coll in ("storages", "servers", "networks", "devices", "countries", "jobs", "steps", "journeys"):
             for o in s[coll].values():
                 o["name"] = f"same {coll}"
         for o in s["countries"].values():
